@@ -10,8 +10,8 @@ import z3
 from . import frontend
 
 KIND_PROPS = {
-    'safe': {'C14'},
-    'exc': {'C14'},
+    'safe': {'C14', 'C20', 'C10'},
+    'exc': {'C14', 'C20', 'C10'},
     'arity': {'C03', 'C14', 'C19'},
 }
 
